@@ -34,6 +34,8 @@ PNext == /\ Len(phist) < MaxOps
             \/ \E c \in Clients, k \in 1..2 : SetAcl(c, k)
             \/ PRestart
 PSpec == PInit /\ [][PNext]_pvars
-pview == <<reg, acls>>
+\* the history is hidden from the view, except whether the last step was a restart (it changes nothing else:
+\* without the bit a restart would only ever END a sequence)
+pview == <<reg, acls, IF phist = <<>> THEN FALSE ELSE phist[Len(phist)].a = "restart">>
 PEmit == PrintT(<<"PCASE", ToJson([steps |-> phist, reg |-> reg, acls |-> acls])>>)
 =============================================================================
